@@ -764,6 +764,17 @@ pub fn run_diff(
                 });
             }
         }
+        if let Some(d) = exec::MACRO_TWICE.with(|mm| mm.borrow_mut().take()) {
+            if prop == "C20" && v.is_none() {
+                v = Some(Violation {
+                    property: prop.into(),
+                    oracle: "macro-argument-evaluation".into(),
+                    step,
+                    sig: format!("macro-arg-evals|{}", vop.label()),
+                    detail: format!("{:?}: {}", vop, d),
+                });
+            }
+        }
         let (mn, sn) = (normalise(&mo), normalise(&so));
         if v.is_some() {
         } else if mo.class3() != so.class3() {
@@ -1105,6 +1116,7 @@ pub fn run_twin(prop: &str, base: &Sandbox, venv: &Env, pre: &Tree, mut src: Src
         let what = if prop == "C05" { "spelling" } else { "wrapper" };
         let mut v: Option<Violation> = None;
         let _ = exec::FOLLOW_TWICE.with(|mm| mm.borrow_mut().take());
+        let _ = exec::MACRO_TWICE.with(|mm| mm.borrow_mut().take());
         if let Some(d) = exec::ENTRY_MISMATCH.with(|mm| mm.borrow_mut().take()) {
             if prop == "C13" {
                 v = Some(Violation {
